@@ -1,8 +1,234 @@
 import RbV.Basic.Codec
-/-! Driver for property C12 (line protocol → verdict). -/
-namespace RbV.Drv.C12
-open RbV.Codec
+import RbV.Model.IndexedFasta
+/-! Driver for property C12: indexed FASTA random access.
 
-def verdict (_toks : List String) (_out : String) : String := "bad-op unimplemented"
+`c12 <file hex> <fai hex> cuts:<n,…> sched:<s,…> <op>;<op>;… => <run>|<run>|…`   (see `harness/src/c12.rs`)
+
+For every run (= the history executed on a fresh reader over `file.take n`) and every operation the driver decides
+the observation against the **specification**:
+
+* the `.fai` text is parsed here; the record sequences are obtained with the FASTA parser model of C11
+  (`parseFasta`), and `wfCheck` confirms that file, index entry and sequence are in the relation `WellFormed`
+  (otherwise the *case* is broken: `bad-op`);
+* a valid request (known record, `start ≤ stop ≤ len`) whose last base lies inside the (possibly truncated) file
+  must yield exactly `seq[start..stop]` (`read`, drained `read_iter`; the first `k` bytes for a partly consumed
+  iterator); by `RbV.Thm.C12.read_correct` this is also what the mirror model yields for every chunk schedule;
+* a valid request whose span is cut by the truncation must yield an error (`read`), or an error item after a
+  correct prefix (`read_iter`) — never short or shifted data;
+* unknown names / record numbers, `stop > len`, `start > stop`, reading before any fetch: an error.
+
+The mirror model is run on the same history with the same chunk schedule; where its observation differs from the
+real one in something the property does not fix (error class, length of the prefix before an error) the case is
+tagged `drift`. -/
+namespace RbV.Drv.C12
+open RbV.Codec RbV.Fastx RbV.IdxFa
+
+def splitBytes (sep : Nat) : Bytes → List Bytes
+  | [] => [[]]
+  | b :: r =>
+    match splitBytes sep r with
+    | [] => [[]]   -- unreachable
+    | l :: ls => if b = sep then [] :: l :: ls else (b :: l) :: ls
+
+def natOfDigits (l : Bytes) : Option Nat :=
+  if l.isEmpty then none else
+  l.foldl (fun acc b => match acc with
+    | none => none
+    | some n => if 48 ≤ b ∧ b ≤ 57 then some (n * 10 + (b - 48)) else none) (some 0)
+
+/-- the `.fai` text: `name TAB len TAB offset TAB line_bases TAB line_bytes` per line (LF or CRLF) -/
+def parseFai (fai : Bytes) : Option (List (Bytes × Idx)) :=
+  let lines := (splitBytes 10 fai).map (fun l => if l.getLast? = some 13 then l.dropLast else l)
+  (lines.filter (fun l => !l.isEmpty)).mapM fun l =>
+    match splitBytes 9 l with
+    | [nm, a, b, c, d] => do
+      let len ← natOfDigits a; let off ← natOfDigits b; let lb ← natOfDigits c; let lB ← natOfDigits d
+      pure (nm, { len := len, off := off, lb := lb, lB := lB })
+    | _ => none
+
+inductive RdMode | r | i | p (k : Nat)
+
+def parseRd (s : String) : Option RdMode :=
+  if s = "r" then some .r else if s = "i" then some .i
+  else if s.startsWith "p" then (s.drop 1).toString.toNat?.map .p else none
+
+inductive Op
+  | fn (name : Bytes) (start stop : Nat) (rd : RdMode)
+  | fr (rid start stop : Nat) (rd : RdMode)
+  | fa (name : Bytes) (rd : RdMode)
+  | far (rid : Nat) (rd : RdMode)
+  | rd (rd : RdMode)
+
+def parseOp (s : String) : Option Op :=
+  match s.splitOn ":" with
+  | ["fn", n, a, b, m] => do pure (.fn (← parseHex n) (← a.toNat?) (← b.toNat?) (← parseRd m))
+  | ["fr", r, a, b, m] => do pure (.fr (← r.toNat?) (← a.toNat?) (← b.toNat?) (← parseRd m))
+  | ["fa", n, m] => do pure (.fa (← parseHex n) (← parseRd m))
+  | ["far", r, m] => do pure (.far (← r.toNat?) (← parseRd m))
+  | ["rd", m] => do pure (.rd (← parseRd m))
+  | _ => none
+
+def Op.mode : Op → RdMode
+  | .fn _ _ _ m | .fr _ _ _ m | .fa _ m | .far _ m | .rd m => m
+
+def errName : Err → String
+  | .eof => "eof" | .oob => "oob" | .interval => "interval" | .nofetch => "nofetch" | .name => "name"
+  | .rid => "rid" | .assert => "assert" | .fuel => "fuel"
+
+/-- the model's observation text for one read in the given mode -/
+def modelObs (file : Bytes) (sched : Nat → Nat) (f : Option Fetched) : RdMode → String
+  | .r => match read file sched f with
+    | .ok b => "ok:" ++ toHex b
+    | .error e => "err:" ++ errName e
+  | .i => match readIt file sched f with
+    | .error e => "err:" ++ errName e ++ ":-"
+    | .ok (b, none) => "ok:" ++ toHex b
+    | .ok (b, some e) => "err:" ++ errName e ++ ":" ++ toHex b
+  | .p k => match readIt file sched f with
+    | .error e => "err:" ++ errName e ++ ":-"
+    | .ok (b, none) => "ok:" ++ toHex (b.take k)
+    | .ok (b, some e) => if k ≤ b.length then "ok:" ++ toHex (b.take k) else "err:" ++ errName e ++ ":" ++ toHex b
+
+/-- observation `ok:<hex>` → bytes; `err:<class>[:<hex>]` → class and prefix -/
+inductive Obs | ok (b : Bytes) | err (cls : String) (pre : Option Bytes) | bad
+
+def parseObs (s : String) : Obs :=
+  match s.splitOn ":" with
+  | ["ok", h] => match parseHex h with | some b => .ok b | none => .bad
+  | ["err", c] => .err c none
+  | ["err", c, h] => match parseHex h with | some b => .err c (some b) | none => .bad
+  | _ => .bad
+
+structure Ctx where
+  file : Bytes          -- the (possibly truncated) file of this run
+  sched : Nat → Nat
+  index : List (Bytes × Idx)
+  seqs : List Bytes     -- sequence of every record, from the FASTA parser model
+
+/-- decide one operation; returns (reason it is rejected | none, drift?, new fetch state (model), tags) -/
+def decideOp (c : Ctx) (st : Option Fetched) (everFetched : Bool) (op : Op) (obs : String) :
+    Option String × Bool × Option Fetched × Bool × List String :=
+  -- fetch phase on the model
+  let fr : Except Err Fetched := match op with
+    | .fn n a b _ => fetch c.index n a b
+    | .fr r a b _ => fetchByRid c.index r a b
+    | .fa n _ => fetchAll c.index n
+    | .far r _ => fetchAllByRid c.index r
+    | .rd _ => match st with | some f => .ok f | none => .error .nofetch
+  match fr with
+  | .error e =>
+    -- unknown name / record number / nothing fetched: an error must be reported
+    match parseObs obs with
+    | .err cls _ => (none, cls ≠ errName e, st, everFetched, ["e-" ++ errName e])
+    | .ok _ => (some ("error-expected-" ++ errName e), false, st, everFetched, [])
+    | .bad => (some ("unparsable-observation"), false, st, everFetched, [])
+  | .ok f =>
+    let isRd : Bool := match op with | .rd _ => true | _ => false
+    let mobs := modelObs c.file c.sched (some f) op.mode
+    let drift := mobs ≠ obs
+    let rid? := c.index.findIdx? (fun e => e.2 == f.idx)
+    let seq : Bytes := match rid? with | some r => c.seqs.getD r [] | none => []
+    if f.stop > f.idx.len ∨ f.start > f.stop then
+      match parseObs obs with
+      | .err _ _ => (none, drift, some f, true, [if f.stop > f.idx.len then "e-oob" else "e-interval"])
+      | .ok _ => (some "invalid-interval-not-refused", false, some f, true, [])
+      | .bad => (some "unparsable-observation", false, some f, true, [])
+    else
+      let want : Bytes := (seq.drop f.start).take (f.stop - f.start)
+      let inside := f.start = f.stop ∨ pos f.idx (f.stop - 1) < c.file.length
+      let tags := (if f.start < f.stop ∧ f.start / f.idx.lb ≠ (f.stop - 1) / f.idx.lb then ["multiline"] else [])
+        ++ (if f.start = f.stop then ["empty"] else [])
+        ++ (if f.stop = f.idx.len ∧ f.start < f.stop then ["to-end"] else [])
+        ++ (if ¬ inside then ["cut-inside"] else [])
+        ++ (match op.mode with | .r => ["read"] | .i => ["iter"] | .p _ => ["iter-partial"])
+        ++ (if f.start < f.stop ∧ pos f.idx (f.stop - 1) - pos f.idx f.start ≥ 8192 then ["span>=8KiB"] else [])
+        ++ (if isRd then ["reread"] else [])
+      let res : Option String :=
+        match parseObs obs, op.mode with
+        | .bad, _ => some "unparsable-observation"
+        | .ok b, .r =>
+          if inside then (if b = want then none else some ("wrong-data-expected-" ++ toHex want))
+          else some "truncated-span-returned-data"
+        | .ok b, .i =>
+          if inside then (if b = want then none else some ("wrong-data-expected-" ++ toHex want))
+          else some "truncated-span-returned-data"
+        | .ok b, .p k =>
+          if b = want.take k ∧ (inside ∨ k ≤ want.length) then
+            (if inside ∨ k = 0 ∨ pos f.idx (f.start + k - 1) < c.file.length then none
+             else some "truncated-span-returned-data")
+          else some ("wrong-data-expected-" ++ toHex (want.take k))
+        | .err _ pre, m =>
+          if inside then
+            -- a partly consumed iterator may also stop early with an error only if the file is truncated
+            some "error-on-valid-request"
+          else
+            match pre, m with
+            | _, .r => none
+            | some p, _ =>
+              if p.length < want.length ∧ p = want.take p.length then none
+              else some "error-after-wrong-prefix"
+            | none, _ => none
+      -- a re-read without a new fetch is not fixed by the property: only the mirror model speaks (drift)
+      if isRd ∧ everFetched then
+        match res with
+        | some _ => (none, true, some f, true, tags)
+        | none => (none, drift, some f, true, tags)
+      else (res, drift, some f, true, tags)
+
+def runOps (c : Ctx) (ops : List Op) (obs : List String) : Option String × Bool × List String :=
+  let rec go (st : Option Fetched) (ever : Bool) (j : Nat) (drift : Bool) (tags : List String) :
+      List Op → List String → Option String × Bool × List String
+    | [], _ => (none, drift, tags)
+    | _ :: _, [] => (some "missing-observation", drift, tags)
+    | op :: ops, o :: os =>
+      let (rej, d, st', ever', t) := decideOp c st ever op o
+      match rej with
+      | some r => (some ("op" ++ toString j ++ "-" ++ r), drift || d, tags)
+      | none => go st' ever' (j + 1) (drift || d) (t.foldl (fun acc x => if acc.contains x then acc else x :: acc) tags) ops os
+  go none false 0 false [] ops obs
+
+def verdict (toks : List String) (out : String) : String :=
+  match toks with
+  | [fh, ih, cs, ss, os] =>
+    match parseHex fh, parseHex ih, field cs, field ss with
+    | some file, some fai, some ("cuts", cl), some ("sched", sl) =>
+      match parseNatList cl, parseNatList sl, parseFai fai, (os.splitOn ";").mapM parseOp with
+      | some cuts, some sched, some index, some ops =>
+        if sched.isEmpty ∨ sched.any (· = 0) ∨ cuts.isEmpty then "bad-op sched-or-cuts" else
+        if out.startsWith "PANIC" ∨ out.startsWith "HANG" ∨ out.startsWith "CRASH" then "reject " ++ out else
+        -- the case must be in the domain of the property: parse the records, check the index against them
+        let items := parseFasta file
+        let seqs := items.filterMap (fun it => match it with | .ok r => some r.seq | .err => none)
+        let ids := items.filterMap (fun it => match it with | .ok r => some r.id | .err => none)
+        if items.length ≠ index.length ∨ seqs.length ≠ index.length ∨ ids ≠ index.map (·.1) then
+          "bad-op fasta-and-fai-disagree"
+        else if !(List.zip index seqs).all (fun e => wfCheck file e.1.2 e.2) then "bad-op not-wellformed"
+        else
+          let schedF : Nat → Nat := fun k => min (sched.getD (k % sched.length) 1) 8192
+          let runs := out.splitOn "|"
+          if runs.length ≠ cuts.length then "reject run-count" else
+          let rec goRuns (i : Nat) (drift : Bool) (tags : List String) :
+              List Nat → List String → String
+            | [], _ | _, [] =>
+              let nt := tags.contains "multiline"
+              "ok" ++ (if nt then " nt" else "") ++ (if drift then " drift" else "")
+                ++ (if file.contains 13 then " crlf" else " lf")
+                ++ (if cuts.any (· < file.length) then " trunc" else "")
+                ++ (if file.length > 8192 then " big" else "")
+                ++ (if sched.all (· = 1) then " sched1" else "")
+                ++ String.join (tags.reverse.map (" " ++ ·))
+            | n :: ns, r :: rs =>
+              if n > file.length then "bad-op cut-beyond-file" else
+              let c : Ctx := { file := file.take n, sched := schedF, index := index, seqs := seqs }
+              let obs := r.splitOn ";"
+              if obs.length ≠ ops.length then "reject run" ++ toString i ++ "-observation-count" else
+              match runOps c ops obs with
+              | (some rej, _, _) => "reject run" ++ toString i ++ "-cut" ++ toString n ++ "-" ++ rej
+              | (none, d, t) => goRuns (i + 1) (drift || d)
+                  (t.foldl (fun acc x => if acc.contains x then acc else x :: acc) tags) ns rs
+          goRuns 0 false [] cuts runs
+      | _, _, _, _ => "bad-op parse"
+    | _, _, _, _ => "bad-op parse"
+  | _ => "bad-op arity"
 
 end RbV.Drv.C12
